@@ -15,6 +15,9 @@
 //!                                   ClientConductor::find_exclusive_publication_for_verif, hooks/cond-find-exclusive.diff; the driver
 //!                                   does not generate fx / dx / px when the repository lacks the hook)
 //!   dp|dx|ds|dc <id>                the user drops its handle
+//!   Dp|Dx|Ds|Dc <id>                the same while ANOTHER thread is inside the conductor: a helper thread locks the conductor mutex, signals,
+//!                                   holds it for 150 ms; the handle is dropped meanwhile (the destructor has to wait, then release) -
+//!                                   same observation as the plain drop
 //!   pp|px|ps|pc <id>                peek at the user's handle: [h; closed; images; d1; d2; d3]
 //!   cs <n>                          what the user's callbacks do from now on: 0 only record their arguments; otherwise every callback
 //!                                   (error handler, on_new_*, image and counter handlers, close handler) calls the client the way
@@ -507,21 +510,40 @@ impl Client {
                     Err(e) => format!("Err {}", err_name(&e)),
                 }
             },
-            "dp" | "dx" | "ds" | "dc" => {
+            "dp" | "dx" | "ds" | "dc" | "Dp" | "Dx" | "Ds" | "Dc" => {
                 let k = match w[0] {
-                    "dp" => 0,
-                    "dx" => 1,
-                    "ds" => 2,
+                    "dp" | "Dp" => 0,
+                    "dx" | "Dx" => 1,
+                    "ds" | "Ds" => 2,
                     _ => 3,
                 };
                 match self.held.remove(&(k, a[0])) {
                     Some(list) => {
+                        // "drop while locked": another thread (the conductor's duty cycle / any API call of the application) is inside
+                        // the conductor while the last handle goes away; the destructor has to wait for the mutex and then release
+                        let locker = if w[0].starts_with('D') {
+                            let c = self.conductor.clone();
+                            let (stx, srx) = mpsc::channel::<()>();
+                            let t = std::thread::spawn(move || {
+                                let g = c.lock();
+                                let _ = stx.send(());
+                                std::thread::sleep(LOCK_HOLD);
+                                drop(g);
+                            });
+                            let _ = srx.recv_timeout(WATCHDOG);
+                            Some(t)
+                        } else {
+                            None
+                        };
                         // one destructor at a time: a destructor that panics while another panic unwinds aborts the process
                         let mut panicked = false;
                         for (_h, handle) in list {
                             if vcommon::catch(move || drop(handle)).is_err() {
                                 panicked = true;
                             }
+                        }
+                        if let Some(t) = locker {
+                            let _ = t.join();
                         }
                         if panicked {
                             panic!("a handle's destructor panicked");
@@ -709,6 +731,8 @@ fn canon(cbs: Vec<String>) -> Vec<String> {
 }
 
 const WATCHDOG: Duration = Duration::from_millis(3000);
+/// how long the helper thread of a "drop while locked" (Dp / Dx / Ds / Dc) keeps the conductor mutex
+const LOCK_HOLD: Duration = Duration::from_millis(150);
 const DEADLOCK_GRACE: Duration = Duration::from_millis(400);
 
 fn run_case(line: &str, log_file: &str) -> String {
